@@ -40,7 +40,7 @@ def str_to_num(s: str, fmt: str) -> Any[float, int]:
 
     s = s.strip()
     num_match = re.match(
-        r"^(-?)(\d+\.?\d*|\.\d+)(?:[:; ](\d+\.?\d*))?(?:[:; ](\d+\.?\d*))?$",
+        r"^([-+]?)(\d+\.?\d*|\.\d+)(?:[:; ](\d+\.?\d*))?(?:[:; ](\d+\.?\d*))?$",
         s,
         re.ASCII,
     )
@@ -57,7 +57,7 @@ def str_to_num(s: str, fmt: str) -> Any[float, int]:
 
     # sexagesimal text: the sign applies to the whole magnitude
     magnitude = float(wholes) + (float(minutes) / 60) + (float(seconds or 0) / 3600)
-    return -magnitude if sign else magnitude
+    return -magnitude if sign == "-" else magnitude
 
 
 def num_to_str(n: Optional[float], fmt: str) -> Optional[str]:
